@@ -90,6 +90,14 @@ impl<T: ?Sized> Mutex<T> {
                     };
                     #[cfg(may_verif)]
                     may_queue::verif::point(may_queue::verif::site::MUTEX_CANCEL_CHECK, self as *const Self as *const () as usize);
+                    // the cancel is disabled: keep waiting for the lock and leave the
+                    // release flag alone, or the unlocker would release the lock we take
+                    if b_ignore {
+                        if cur.is_unparked() {
+                            break;
+                        }
+                        continue;
+                    }
                     // check the unpark status
                     if cur.is_unparked() {
                         if b_ignore {
